@@ -121,7 +121,7 @@ class ServiceDecorator(Decorator):
         for domain, name in self.services:
             _LOGGER.debug("Registering service: %s.%s", domain, name)
             Function.service_register(
-                self.dm.ast_ctx.name,
+                self.dm.ast_ctx.global_ctx.get_name(),
                 domain,
                 name,
                 self._service_callback,
